@@ -340,9 +340,10 @@ def pipe_space(L, n_cells, tier):
         'drop_level': list(range(L - 1)),
         'marker_mode': ['fallback'],
         'query_genes': ['subset'],
+        'flat_cell': [True],
     }
     default = dict(scenario.DEFAULT_CFG, marker_mode='full',
-                   query_genes='superset')
+                   query_genes='superset', flat_cell=False)
     d = 1 if tier == 'quick' else 2
     for cfg, dev in domains.deviations(default, alph, d):
         yield cfg, dev
@@ -364,17 +365,21 @@ def evaluate_pipe(case, scratch):
         cfg = dict(cfg)
         mmode = cfg.pop('marker_mode')
         qg = cfg.pop('query_genes')
-        if (mmode, qg) not in built:
+        flat = cfg.pop('flat_cell')
+        if (mmode, qg, flat) not in built:
             spec = {'L': L, 'shape': case['shape'], 'scheme': case['scheme'],
                     'n_cells': n_cells, 'seed': case['seed'],
-                    'marker_mode': mmode, 'query_genes': qg}
-            built[(mmode, qg)] = scenario.build(
+                    'marker_mode': mmode, 'query_genes': qg,
+                    'flat_cell': flat}
+            built[(mmode, qg, flat)] = scenario.build(
                 spec, scratch.new_dir('in') / 'in')
         res = mapcheck.run_and_judge(None, cfg, scratch,
-                                     want=('C02',), built=built[(mmode, qg)])
+                                     want=('C02',),
+                                     built=built[(mmode, qg, flat)])
         n_runs += 1
         label = {k: cfg[k] for k in dev if k in cfg}
-        label.update({'marker_mode': mmode, 'query_genes': qg})
+        label.update({'marker_mode': mmode, 'query_genes': qg,
+                      'flat_cell': flat})
         for k in agg:
             agg[k] += res['stats'].get(k, 0)
         for f in res['findings']:
